@@ -586,7 +586,7 @@ class Loops:
         seq = self.iter_seq(it, itv)
         ety = self.elem_types(itv)
         ln = simp(z3.Length(seq))
-        if z3.is_int_value(ln):
+        if z3.is_int_value(ln) and (ln.as_long() <= 1 or not (self.loop_spec(it, s, 'for') or {}).get('use_invariant')):
             broke = False
             for j in range(ln.as_long()):
                 it.assign(s.target, SV(simp(seq[j]), ety))
